@@ -12,8 +12,8 @@ import (
 	"net/http"
 	"time"
 
-	spb "google.golang.org/genproto/googleapis/rpc/status"
 	"google.golang.org/genproto/googleapis/rpc/errdetails"
+	spb "google.golang.org/genproto/googleapis/rpc/status"
 	"google.golang.org/grpc"
 	"google.golang.org/grpc/metadata"
 	"google.golang.org/grpc/status"
@@ -129,7 +129,7 @@ type wireStatus struct {
 	Raw        string
 	// LooseJSON: the JSON body is not proto3-JSON (protojson rejects it) and was read with encoding/json
 	LooseJSON bool
-	Msg        string
+	Msg       string
 }
 
 func retryInfoOf(details []any) (bool, time.Duration) {
